@@ -55,8 +55,8 @@ def rk(x):
 class Prop(SeqProp):
     pid = "C09"
     anchors = ["windpyutils/structures/sorted.py", "windpyutils/generic.py"]
-    quick_cases = 2000
-    thorough_cases = 8000
+    quick_cases = 6000
+    thorough_cases = 60000
     rule = ("initialisers {empty, unsorted, with repeats, mapping, pairs} and random op sequences (set: add/discard/remove/"
             "pop/clear/in; map: store/delete/pop/popitem/setdefault/update/lookup/in) over a pool of 25 ints and floats "
             "(incl. -0.0/0, 1/1.0, 2**53±1, ±inf, ints beyond the float range) sent to the model as exact order ranks, plus foreign-typed probes; "
@@ -253,6 +253,56 @@ class Prop(SeqProp):
                 return "L:" + ",".join(r_of(x) for x in obj.values)
             return "K:" + ",".join(r_of(x) for x in obj.keys_storage) + " V:" + ",".join(str(codev(v)) for v in obj.values_storage)
 
+        from .. import mixins
+        shadow = set() if kind == "sset" else {}
+        brng = random.Random(case.meta.get("donor_seed", 0) ^ 0xB177)
+
+        def shadow_apply(op, args, r):
+            """the builtin set / dict driven by the same operation (only when the operation did not raise)"""
+            nonlocal shadow
+            if r.startswith("err"):
+                return
+            v = [self.val(a) for a in args if not isinstance(a, str)] if kind == "sset" else None
+            if kind == "sset":
+                if op == "init":
+                    shadow = set(v)
+                elif op == "add":
+                    shadow.add(v[0])
+                elif op in ("discard", "remove"):
+                    if v:
+                        shadow.discard(v[0])
+                elif op == "pop":
+                    shadow.discard(next((x for x in shadow if r_of(x) == r[4:]), None))
+                elif op == "clear":
+                    shadow = set()
+            else:
+                key = lambda j: self.val(args[j])
+                if op == "init":
+                    shadow = {}
+                    for j in range(0, len(args), 2):
+                        shadow[key(j)] = pyv(args[j + 1])
+                elif op == "set" and not isinstance(args[0], str):
+                    shadow[key(0)] = pyv(args[1])
+                elif op in ("del", "pop") and not isinstance(args[0], str):
+                    shadow.pop(key(0), None)
+                elif op == "popitem":
+                    kk = next((x for x in shadow if r_of(x) == r[4:].split(":")[0]), None)
+                    shadow.pop(kk, None)
+                elif op == "setdefault":
+                    shadow.setdefault(key(0), pyv(args[1]))
+                elif op == "update":
+                    for j in range(0, len(args), 2):
+                        shadow[key(j)] = pyv(args[j + 1])
+
+        def battery():
+            """the inherited (mixin) interface beside the builtin container with the same content"""
+            probes = [POOL[brng.randrange(len(POOL))] for _ in range(3)] + list(shadow)[:2]
+            if kind == "sset":
+                others = [set(list(shadow)[:2]) | {POOL[brng.randrange(len(POOL))]}, set(shadow), set()]
+                return mixins.set_battery(obj, shadow, probes, ordered=sorted(shadow), others=others)
+            return mixins.mapping_battery(obj, shadow, probes, foreign=[FOREIGN[brng.randrange(len(FOREIGN))]],
+                                          ordered_keys=sorted(shadow))
+
         for op, args in case.meta["impl"]:
             try:
                 if kind == "sset":
@@ -336,6 +386,14 @@ class Prop(SeqProp):
                 if isinstance(e, (KeyboardInterrupt, SystemExit)):
                     raise
                 r = f"err {err_name(e)}"
+            mix = None
+            if r != "bad-op":
+                try:
+                    shadow_apply(op, args, r)
+                    if brng.random() < 0.2 or op == "init":
+                        mix = battery()
+                except Exception as e:  # noqa
+                    mix = f"the battery itself failed: {err_name(e)}: {e}"
             donor_err = None
             if op != "init" and donor[0] is not None and drng.random() < 0.5:
                 try:
@@ -343,7 +401,9 @@ class Prop(SeqProp):
                 except Exception as e:  # noqa: an ordinary operation on a numeric key never raises
                     donor_err = err_name(e)
             out.append(r if r == "bad-op" else r + " " + dump())
-            if donor_err is not None:
+            if mix is not None:
+                out[-1] = "mixin-mismatch " + mix + " ;; " + out[-1]
+            elif donor_err is not None:
                 out[-1] = f"source-object-of-the-copy-construction raised {donor_err} on an ordinary operation; " + out[-1]
             elif not donor_ok():
                 out[-1] = "source-object-of-the-copy-construction-changed " + out[-1]
@@ -357,6 +417,8 @@ class Prop(SeqProp):
             a = [("f" if isinstance(x, str) else rk(POOL[x])) for x in args] if kind == "sset" or op in ("get", "has", "del", "pop") \
                 else None
             exp = "ok"
+            if line.startswith("mixin-mismatch "):
+                return f"op {i} {op}: inherited interface: {line[15:].split(' ;; ')[0][:600]}"
             if line.startswith("source-object-of"):
                 return (f"op {i} {op}: the object the initial values were copied from no longer behaves like its own "
                         f"set / dict after the copy was used: {line[:200]!r}")
